@@ -147,6 +147,26 @@ def literals(res):
     for f in floats:
         add(f)
         add(f + "j")
+    # digits-only literals (integer and imaginary) at the rounding boundaries of the double format: 2^53 neighbours,
+    # halfway points between adjacent doubles of every magnitude, and the overflow threshold DBL_MAX + half an ulp
+    import sys as _sys
+    dmax = int(_sys.float_info.max)
+    half = 2 ** 970
+    edge = [dmax + d for d in (-1, 0, 1, 2, half - 1, half, half + 1, 2 * half - 1, 2 * half, 2 * half + 1)] + [10 ** 308, 10 ** 309 - 1, 2 ** 1024 - 1, 2 ** 1024, 2 ** 1024 + 1]
+    for k in (53, 54, 60, 63, 64, 80, 100, 200, 500, 1000, 1023):
+        ulp = 2 ** (k - 52)
+        for d in (-1, 0, 1):
+            edge += [2 ** k + d, 2 ** k + ulp // 2 + d, 2 ** k + ulp + ulp // 2 + d, 2 ** k + 3 * ulp + ulp // 2 + d]
+    for _ in range(600 if thorough else 150):
+        k = rng.randint(53, 1023)
+        ulp = 2 ** (k - 52)
+        edge.append(2 ** k + rng.randrange(0, 2 ** 52) * ulp + ulp // 2 + rng.choice([-1, 0, 1]))
+    for v in edge:
+        add(str(v))
+        add(str(v) + "j")
+        add(str(v) + "J")
+        add(str(v) + ".0")
+        add(str(v) + "e0j")
     for _ in range(30000 if thorough else 12000):
         b = rng.getrandbits(64)
         f = struct.unpack("<d", struct.pack("<Q", b))[0]
